@@ -914,6 +914,29 @@ end
 
 def anteOkTop (tops : List Top) (grants : Addr → Addr → Bool) : Bool := anteOkTx (scopeList tops) grants
 
+/-- `cMaxNestedMsgDepth` (x/paloma/ante.go and util/libwasm/plugin.go): wrappers are unfolded to this depth; a transaction or
+    a contract dispatch nested more deeply is refused as a whole — no message inside it is run -/
+def maxNesting : Nat := 6
+
+mutual
+/-- number of `MsgExec` layers around the most deeply wrapped message -/
+def Top.depth : Top → Nat
+  | .plain _ => 0
+  | .exec _ inner => 1 + depthList inner
+def depthList : List Top → Nat
+  | [] => 0
+  | t :: ts => max t.depth (depthList ts)
+end
+
+/-- the decorator with its depth bound: `ownershipScope` fails at an `MsgExec` met at depth `cMaxNestedMsgDepth` -/
+def anteOkTopBounded (tops : List Top) (grants : Addr → Addr → Bool) : Bool :=
+  decide (depthList tops ≤ maxNesting) && anteOkTop tops grants
+
+/-- a message wrapped `k` times by the grantee `g` -/
+def wrapN (g : Addr) (m : Msg) : Nat → Top
+  | 0 => .plain m
+  | k + 1 => .exec g [wrapN g m k]
+
 /-- the decorator before the repair: only the transaction's own paloma messages -/
 def anteOkTopOld (tops : List Top) (grants : Addr → Addr → Bool) : Bool :=
   tops.all fun t => match t with
